@@ -34,13 +34,27 @@ TICKS = [0, 1, 500, 999, 1001, 9999, 10001, 1125000, 4500000]
 TTLS = [0, 1, 2, 1124, 1125, 4500, 4500, 4500]
 
 
+ODD = 4      # an instance whose label is 26 bytes on the wire, 24 of them invalid UTF-8: decoded with replacement characters it
+#              cannot be written again (78 bytes) - still a pointer like any other for the cache, and for the browser
+
+
+def inst_label(ii: int, sp: int) -> bytes:
+    if ii == ODD:
+        return (b'I4' if sp else b'i4') + b'\xff' * 24
+    return (('Inst%d' if sp else 'inst%d') % ii).encode()
+
+
+def inst_labels(ti: int, ii: int, sp: int) -> List[bytes]:
+    return [inst_label(ii, sp)] + wire.labels_of(TYPES[ti])
+
+
 def inst_name(ti: int, ii: int, sp: int) -> str:
-    base = ('Inst%d' if sp else 'inst%d') % ii
-    return f'{base}.{TYPES[ti]}'
+    """the text form the library gives the name (invalid UTF-8 decoded with replacement characters)"""
+    return f"{inst_label(ii, sp).decode('utf-8', 'replace')}.{TYPES[ti]}"
 
 
 TI = st.sampled_from([0, 0, 0, 1, 2])
-II = st.sampled_from([0, 0, 0, 1, 1, 2, 3])
+II = st.sampled_from([0, 0, 0, 1, 1, 2, 3, ODD])
 ptr_st = st.fixed_dictionaries({'k': st.just('PTR'), 'type': TI, 'inst': II, 'sp': st.integers(0, 1),
                                 'ttl': st.sampled_from(TTLS), 'flush': st.sampled_from([False, False, False, True])})
 srv_st = st.fixed_dictionaries({'k': st.just('SRV'), 'type': TI, 'inst': II, 'sp': st.integers(0, 1),
@@ -146,12 +160,12 @@ def to_rr(r: Dict[str, Any]) -> Dict[str, Any]:
     cls = 1 | (0x8000 if r['flush'] else 0)
     if r['k'] == 'PTR':
         return {'name': wire.labels_of(TYPES[r['type']]), 'type': 12, 'cls': cls, 'ttl': r['ttl'],
-                'rd': {'target': wire.labels_of(inst_name(r['type'], r['inst'], r['sp']))}}
+                'rd': {'target': inst_labels(r['type'], r['inst'], r['sp'])}}
     if r['k'] == 'SRV':
-        return {'name': wire.labels_of(inst_name(r['type'], r['inst'], r['sp'])), 'type': 33, 'cls': cls, 'ttl': r['ttl'],
+        return {'name': inst_labels(r['type'], r['inst'], r['sp']), 'type': 33, 'cls': cls, 'ttl': r['ttl'],
                 'rd': {'prio': 0, 'weight': 0, 'port': r['port'], 'target': wire.labels_of(HOSTS[r['host']])}}
     if r['k'] == 'TXT':
-        return {'name': wire.labels_of(inst_name(r['type'], r['inst'], r['sp'])), 'type': 16, 'cls': cls, 'ttl': r['ttl'],
+        return {'name': inst_labels(r['type'], r['inst'], r['sp']), 'type': 16, 'cls': cls, 'ttl': r['ttl'],
                 'rd': {'txt': bytes.fromhex(r['txt'])}}
     return {'name': wire.labels_of(HOSTS[r['host']]), 'type': 1, 'cls': cls, 'ttl': r['ttl'], 'rd': {'addr': bytes.fromhex(r['addr'])}}
 
